@@ -9,6 +9,7 @@ import (
 	"sort"
 	"strconv"
 	"strings"
+	"time"
 	"unicode"
 	"unicode/utf8"
 
@@ -85,6 +86,7 @@ var atoms = map[string]struct {
 	"u8":  {reflect.TypeOf(uint8(0)), "(TUint U8)"}, "u16": {reflect.TypeOf(uint16(0)), "(TUint U16)"},
 	"u32": {reflect.TypeOf(uint32(0)), "(TUint U32)"}, "u64": {reflect.TypeOf(uint64(0)), "(TUint U64)"},
 	"uint": {reflect.TypeOf(uint(0)), "(TUint UInt)"}, "uptr": {reflect.TypeOf(uintptr(0)), "(TUint UPtr)"},
+	"dur":   {reflect.TypeOf(time.Duration(0)), "TDur"},
 	"other": {reflect.TypeOf((*int)(nil)), "TOther"},
 	"set":   {reflect.TypeOf(map[string]struct{}{}), "TSet"},
 	"mss":   {reflect.TypeOf(map[string][]string{}), "TMss"},
@@ -310,6 +312,8 @@ func (g *Gen) ident() string {
 // element renders one item the way a user might write it on a command line
 func (g *Gen) element(code string) string {
 	switch {
+	case strings.Contains(code, "dur") && g.r.Chance(3, 4):
+		return g.DurationText()
 	case strings.Contains(code, "bool") && g.r.Chance(1, 2):
 		return coqfmt.Pick(g.r, boolWords)
 	case strings.ContainsAny(code, "0123456789") && g.r.Chance(3, 4): // an integer width is mentioned
@@ -391,4 +395,50 @@ func ASCIIOnly(s string) string {
 		}
 		return r
 	}, s)
+}
+
+var durUnits = []string{"ns", "us", "µs", "μs", "ms", "s", "m", "h", "s", "m", "h", "d", "sec", "", "S", "hs"}
+
+// DurationText is an argument for time.ParseDuration: mostly well-formed
+// ([-+]?([0-9]*(\.[0-9]*)?unit)+), with values around the int64 edges, some malformed.
+func (g *Gen) DurationText() string {
+	r := g.r
+	if r.Chance(1, 10) {
+		return coqfmt.Pick(r, []string{"", "0", "+0", "-0", "+", "-", ".", ".s", "-.s", "1", "1.", "s", "1.s", ".5s", "1h-1m", "1 h", " 1h", "1h ",
+			"9223372036854775808ns9223372036854775808ns", "4611686018427387904ns4611686018427387904ns", "-4611686018427387904ns4611686018427387904ns",
+			"9223372036854775807ns", "9223372036854775808ns", "-9223372036854775808ns", "-9223372036854775809ns", "2562047h47m16.854775807s",
+			"2562047h47m16.854775808s", "-2562047h47m16.854775808s", "2562048h", "153722867m", "153722868m", "9223372036s", "9223372037s",
+			"0.3333333333333333333h", "1.0000000000000000000000001s", "0.000000001s", "0.0000000001s", "1e3s", "0x1s", "1_0s", "١s", "1h1h", "1.5.5s",
+			"99999999999999999999ns", "0.99999999999999999999h", "9223372036854.775808ms", "9223372036854775.808us"})
+	}
+	var b strings.Builder
+	switch r.Intn(6) {
+	case 0:
+		b.WriteByte('-')
+	case 1:
+		b.WriteByte('+')
+	}
+	n := 1 + r.Intn(3)
+	for i := 0; i < n; i++ {
+		switch x := r.Intn(10); {
+		case x < 6:
+			b.WriteString(strconv.Itoa(r.Intn(1000)))
+		case x < 8:
+			b.WriteString(strconv.FormatUint(r.U64()>>uint(r.Intn(64)), 10))
+		case x < 9:
+			b.WriteString(coqfmt.Pick(r, []string{"2562047", "2562048", "153722867", "9223372036", "9223372036854", "9223372036854775807", "9223372036854775808"}))
+		}
+		if r.Chance(1, 3) {
+			b.WriteByte('.')
+			k := r.Intn(10)
+			if r.Chance(1, 8) {
+				k = 10 + r.Intn(15) // more digits than a unit has: float step may be inexact
+			}
+			for j := 0; j < k; j++ {
+				b.WriteByte(byte('0' + r.Intn(10)))
+			}
+		}
+		b.WriteString(coqfmt.Pick(r, durUnits))
+	}
+	return b.String()
 }
